@@ -30,6 +30,28 @@ def run(ctx):
     q2(ctx, F)
     q3(ctx, F)
     q4(ctx, F)
+    q5(ctx, F)
+
+
+def q5(ctx, F):
+    """The root probe hands an entry's move to the driver, which overwrites its running move with it (no fallback after the
+    first completed iteration): so no table entry may be created with a constant "no move"."""
+    n = 0
+    for path in ("search::get_best_move_score", "search::get_best_move_entry"):
+        fn = F.fn(path)
+        sym = hir.Sym(hir.Env(fn["hir"], F), F)
+        for lit, _ in hir.walk(fn["hir"]["body"]):
+            if lit.get("k") == "Struct" and (lit["to"].get("path") or "").endswith("search::TableEntry"):
+                n += 1
+                pv = [f["e"] for f in lit["fields"] if f["name"] == "pv"]
+                v = sym(pv[0]) if pv else ("none",)
+                ok = bool(pv) and not (v[0] == "variant" and str(v[1]).endswith("::None")) and v[0] != "none"
+                ctx.check("C07.Q5", "no-entry-is-created-without-a-move:%s#%d" % (path.split("::")[-1], n), ok, fn=path, file=fn["file"],
+                          line=hir.line(lit),
+                          what="a table entry is created with `pv: None`: when such an entry answers the root probe the driver replaces "
+                               "its legal fallback move by None, and a stop during the next iteration prints `bestmove none` although "
+                               "legal moves exist", expected="pv: the best move found at this node", found=hir.fmt(v, 60))
+    ctx.floor("C07.Q5", "table entry literals", n, 2)
 
 
 def param_local(fn, name):
